@@ -1,14 +1,15 @@
 """C02 — committed containers are never modified again (frames and effect order of the record life cycle)."""
-from . import hashing, record
+from . import hashing, manifest, record
 
 
 def build(reg):
     record.add_record_bindings(reg)
     record.add_open_bindings(reg)
     specs = record.add_lifecycle(reg)
+    specs += manifest.add_manifest(reg)
     return {
         "verify": specs,
         "lemmas": [],
-        "trusted": hashing.TRUSTED + [record.T1_OPEN, record.T1_X, record.T2_UNLINK, record.T3_HEX, record.T5_UB, record.T6_UUID],
+        "trusted": hashing.TRUSTED + [record.T1_OPEN, record.T1_X, record.T2_UNLINK, record.T3_HEX, record.T5_UB, record.T6_UUID, manifest.T5_MF],
         "assumptions": ["IH5UserBlock.save rewrites only bytes of the user-block area of the named file (contract assumed here; its body is checked bounded in C11 torn-write enumeration)", "_next_patch_filepath returns some path; freshness is not needed because _new_container uses mode 'x'"],
     }
